@@ -17,7 +17,12 @@ RULE = ('fixed corpus (sizes 0 / 1 / block and header boundaries, last short blo
         'non-trivial = at least one damaged block repaired; distinct by (tool, codec, hash, fast, erasure mode, damage mode, where, at-capacity).  '
         'Plus: toolrun stream (whole correction runs of both tools against the COMPOSED model of the tool-level theorems, hash and decoder as '
         'recorded tables: counters, exit status, output folder; kinds none / light / heavy / partial / track / missing / truncated / '
-        '--ignore_size / --no_fast_check); cli-process scenarios (the tool as a process with -l: exit status); --hash none repair stream.')
+        '--ignore_size / --no_fast_check); selrun stream (correction restricted with -e/--errors_file: one observed run per case against '
+        'run_h_sel / run_w_sel of coq/Select.v fed with the recorded tables and the list — counters, exit status, output folder — plus the '
+        'predicate listed-and-damaged => repaired, not listed => nothing written; lists: all paths, subsets, unknown names, a latin-1 name; '
+        'path field damaged within its intra-ecc, size field destroyed); cli-process scenarios (the tools as processes with -l: exit status and '
+        'output folder; every alias of the two subcommands; -e written by `pff hash -e` into another directory; ecc file named after the input '
+        'folder; used output folder; output folder whose name starts with the input folder name); --hash none repair stream.')
 TRUSTED_EXTRA = base.TRUSTED_EXTRA
 ASSUMPTIONS = ['dec_complete: the third-party decoders decode every received word that is within capacity of a codeword (oracle hypothesis, '
                'tested here at exactly the capacity, not proved)',
@@ -229,6 +234,8 @@ def run(ctx):
                           'C01-header-prefill', 'C01-whole-prefill', 'C01-header-prefixout', 'C01-whole-prefixout'])
     from props import toolrun_lib
     toolrun_lib.stream(ctx)
+    from props import selrun_lib
+    selrun_lib.stream(ctx)
     hash_none_stream(ctx)
     cj = corpus()
     for job, res in zip(cj, pipe.run_jobs(cj)):
@@ -248,6 +255,9 @@ def replay_case(ctx, case):
     if case.get('kind') == 'cli-process':
         from props import cli_proc
         return cli_proc.replay(case)
+    if case.get('kind') == 'selrun':
+        from props import selrun_lib
+        return selrun_lib.replay(ctx, case)
     if case.get('stream') == 'hash-none':
         sub = common_ctx_like(ctx)
         hash_none_stream(sub)
@@ -270,7 +280,7 @@ def replay_case(ctx, case):
 
 
 def shrink(ctx, case):
-    if case.get('stream') in ('hash-none', 'toolrun') or case.get('kind') == 'cli-process':
+    if case.get('stream') in ('hash-none', 'toolrun') or case.get('kind') in ('cli-process', 'selrun'):
         return case
     def bad(c):
         r = pipe.run_jobs([c])[0]
